@@ -5,4 +5,324 @@ import TickitModel.Core.Zmq
 
 namespace Tickit
 
+/-- the message a sender has taken but not yet written -/
+def Sender.infl (s : Sender) : List Nat :=
+  match s.pc with
+  | .wantLock | .inFactory | .ready => s.cur.toList
+  | .idle | .draining => []
+
+/-- messages written by sender `i`, in order -/
+def Zmq.wr (z : Zmq) (i : Nat) : List Nat := (z.writes.filter (fun w => w.1 == i)).map (·.2)
+
+theorem Sender.infl_length_le (s : Sender) : s.infl.length ≤ 1 := by
+  unfold Sender.infl
+  split <;> cases s.cur <;> simp
+
+structure ZInv (z : Zmq) : Prop where
+  fc : z.factoryCalls = if (z.socket = true ∨ z.lockHeld.isSome = true) then 1 else 0
+  holder : ∀ (i : Nat) (s : Sender), z.senders[i]? = some s → s.pc = .inFactory → z.lockHeld = some i
+  sock : ∀ (i : Nat) (s : Sender), z.senders[i]? = some s → (s.pc = .ready ∨ s.pc = .draining) → z.socket = true
+  wsock : z.writes ≠ [] → z.socket = true
+  wlt : ∀ w ∈ z.writes, w.1 < z.senders.length
+  q : ∃ s0, z.senders[0]? = some s0 ∧ z.wr 0 ++ s0.infl ++ z.queue = z.queued
+  d : ∀ (i : Nat) (s : Sender), 0 < i → z.senders[i]? = some s → z.wr i ++ s.infl ++ s.todo = s.orig
+
+theorem getElem?_set_some {α : Type} {l : List α} {i j : Nat} {a s t : α} (h : l[i]? = some s) :
+    (l.set i a)[j]? = some t ↔ (j = i ∧ t = a) ∨ (j ≠ i ∧ l[j]? = some t) := by
+  have hi : i < l.length := by
+    rcases Nat.lt_or_ge i l.length with h' | h'
+    · exact h'
+    · rw [List.getElem?_eq_none h'] at h; cases h
+  rw [List.getElem?_set]
+  by_cases hij : i = j
+  · subst hij; simp [hi, eq_comm]
+  · simp [hij, Ne.symm hij]
+
+theorem ZInv.init : ZInv Zmq.init := by
+  constructor <;> simp [Zmq.init, Zmq.wr, Sender.infl]
+  · intro i s h; cases i <;> simp at h; subst h; simp
+  · intro i s h; cases i <;> simp at h; subst h; simp
+  · intro i s hi h; cases i <;> simp at h; omega
+
+theorem Zmq.wr_append (z : Zmq) (j m i : Nat) :
+    (({ z with writes := z.writes ++ [(j, m)] } : Zmq).wr i) = z.wr i ++ (if j = i then [m] else []) := by
+  simp [Zmq.wr, List.filter_append, List.filter_cons]
+  split <;> simp_all
+
+theorem ZInv.step {z z' : Zmq} {i : Nat} (h : ZInv z) (hstep : z.stepSender i = some z') : ZInv z' := by
+  unfold Zmq.stepSender at hstep
+  split at hstep
+  · cases hstep
+  rename_i s hs
+  obtain ⟨hfc, hholder, hsock, hwsock, hwlt, ⟨s0, hs0, hq0⟩, hd⟩ := h
+  split at hstep
+  · -- idle
+    rename_i hpc
+    split at hstep
+    · split at hstep
+      · cases hstep
+      · rename_i m q hq
+        simp at hstep; subst hstep
+        rename_i h0 _ ; simp at h0; subst h0
+        constructor <;> dsimp only [setSender]
+        · exact hfc
+        · intro j t hj ht
+          rw [getElem?_set_some hs] at hj
+          grind
+        · intro j t hj ht
+          rw [getElem?_set_some hs] at hj
+          grind
+        · exact hwsock
+        · simpa using hwlt
+        · refine ⟨_, by simp [getElem?_set_some hs]; rfl, ?_⟩
+          grind [Sender.infl, Zmq.wr]
+        · intro j t hj0 hj
+          rw [getElem?_set_some hs] at hj
+          have := hd j t hj0
+          grind [Zmq.wr]
+    · split at hstep
+      · cases hstep
+      · rename_i m q hq
+        simp at hstep; subst hstep
+        rename_i h0 _ ; simp at h0
+        constructor <;> dsimp only [setSender]
+        · exact hfc
+        · intro j t hj ht
+          rw [getElem?_set_some hs] at hj
+          grind
+        · intro j t hj ht
+          rw [getElem?_set_some hs] at hj
+          grind
+        · exact hwsock
+        · simpa using hwlt
+        · refine ⟨s0, by simp [h0, hs0], ?_⟩
+          exact hq0
+        · intro j t hj0 hj
+          rw [getElem?_set_some hs] at hj
+          have := hd j t hj0
+          have := hd i s (by omega) hs
+          grind [Zmq.wr, Sender.infl]
+  · -- wantLock
+    rename_i hpc
+    split at hstep
+    · split at hstep
+      · cases hstep
+      · simp at hstep; subst hstep
+        exact ⟨hfc, hholder, hsock, hwsock, hwlt, ⟨s0, hs0, hq0⟩, hd⟩
+    · rename_i hlock
+      split at hstep
+      · dsimp only at hstep
+        split at hstep
+        · rename_i hsk
+          simp at hstep; subst hstep
+          constructor <;> dsimp only [setSender]
+          · exact hfc
+          · intro j t hj ht
+            rw [getElem?_set_some hs] at hj
+            grind
+          · intro j t hj ht
+            exact hsk
+          · exact hwsock
+          · simpa using hwlt
+          · by_cases h0 : i = 0
+            · subst h0
+              refine ⟨_, by simp [getElem?_set_some hs]; rfl, ?_⟩
+              grind [Sender.infl, Zmq.wr]
+            · refine ⟨s0, by simp [h0, hs0], ?_⟩
+              exact hq0
+          · intro j t hj0 hj
+            rw [getElem?_set_some hs] at hj
+            have := hd j t hj0
+            have := hd i s
+            grind [Zmq.wr, Sender.infl]
+        · rename_i hsk
+          simp at hstep; subst hstep
+          constructor <;> dsimp only [setSender]
+          · grind
+          · intro j t hj ht
+            rw [getElem?_set_some hs] at hj
+            grind
+          · intro j t hj ht
+            rw [getElem?_set_some hs] at hj
+            grind
+          · exact hwsock
+          · simpa using hwlt
+          · by_cases h0 : i = 0
+            · subst h0
+              refine ⟨_, by simp [getElem?_set_some hs]; rfl, ?_⟩
+              grind [Sender.infl, Zmq.wr]
+            · refine ⟨s0, by simp [h0, hs0], ?_⟩
+              exact hq0
+          · intro j t hj0 hj
+            rw [getElem?_set_some hs] at hj
+            have := hd j t hj0
+            have := hd i s
+            grind [Zmq.wr, Sender.infl]
+      · split at hstep
+        · cases hstep
+        · simp at hstep; subst hstep
+          exact ⟨hfc, hholder, hsock, hwsock, hwlt, ⟨s0, hs0, hq0⟩, hd⟩
+  · -- inFactory
+    rename_i hpc
+    simp at hstep; subst hstep
+    constructor <;> dsimp only [setSender]
+    · grind
+    · intro j t hj ht
+      rw [getElem?_set_some hs] at hj
+      grind
+    · intro j t hj ht
+      first | rfl | (rw [getElem?_set_some hs] at hj; grind)
+    · grind
+    · simp; grind
+    · by_cases h0 : i = 0
+      · subst h0
+        refine ⟨_, by simp [getElem?_set_some hs]; rfl, ?_⟩
+        grind [Sender.infl, Zmq.wr]
+      · refine ⟨s0, by simp [h0, hs0], ?_⟩
+        grind [Zmq.wr]
+    · intro j t hj0 hj
+      rw [getElem?_set_some hs] at hj
+      have := hd j t hj0
+      have := hd i s
+      grind [Zmq.wr, Sender.infl]
+  · -- ready
+    rename_i hpc
+    split at hstep
+    · rename_i hcur
+      simp at hstep; subst hstep
+      constructor <;> dsimp only [setSender]
+      · grind
+      · intro j t hj ht
+        rw [getElem?_set_some hs] at hj
+        grind
+      · intro j t hj ht
+        first | rfl | (rw [getElem?_set_some hs] at hj; grind)
+      · grind
+      · simp; grind
+      · by_cases h0 : i = 0
+        · subst h0
+          refine ⟨_, by simp [getElem?_set_some hs]; rfl, ?_⟩
+          grind [Sender.infl, Zmq.wr]
+        · refine ⟨s0, by simp [h0, hs0], ?_⟩
+          grind [Zmq.wr]
+      · intro j t hj0 hj
+        rw [getElem?_set_some hs] at hj
+        have := hd j t hj0
+        have := hd i s
+        grind [Zmq.wr, Sender.infl]
+    · rename_i m hcur
+      simp at hstep; subst hstep
+      constructor <;> dsimp only [setSender]
+      · grind
+      · intro j t hj ht
+        rw [getElem?_set_some hs] at hj
+        grind
+      · intro j t hj ht
+        first | rfl | (rw [getElem?_set_some hs] at hj; grind)
+      · grind
+      · simp; grind
+      · by_cases h0 : i = 0
+        · subst h0
+          refine ⟨_, by simp [getElem?_set_some hs]; rfl, ?_⟩
+          grind [Sender.infl, Zmq.wr]
+        · refine ⟨s0, by simp [h0, hs0], ?_⟩
+          grind [Zmq.wr]
+      · intro j t hj0 hj
+        rw [getElem?_set_some hs] at hj
+        have := hd j t hj0
+        have := hd i s
+        grind [Zmq.wr, Sender.infl]
+  · -- draining
+    rename_i hpc
+    simp at hstep; subst hstep
+    constructor <;> dsimp only [setSender]
+    · grind
+    · intro j t hj ht
+      rw [getElem?_set_some hs] at hj
+      grind
+    · intro j t hj ht
+      first | rfl | (rw [getElem?_set_some hs] at hj; grind)
+    · grind
+    · simp; grind
+    · by_cases h0 : i = 0
+      · subst h0
+        refine ⟨_, by simp [getElem?_set_some hs]; rfl, ?_⟩
+        grind [Sender.infl, Zmq.wr]
+      · refine ⟨s0, by simp [h0, hs0], ?_⟩
+        grind [Zmq.wr]
+    · intro j t hj0 hj
+      rw [getElem?_set_some hs] at hj
+      have := hd j t hj0
+      have := hd i s
+      grind [Zmq.wr, Sender.infl]
+
+theorem Zmq.wr_eq_nil_of_forall (z : Zmq) (i : Nat) (h : ∀ w ∈ z.writes, w.1 ≠ i) : z.wr i = [] := by
+  simp only [Zmq.wr, List.map_eq_nil_iff, List.filter_eq_nil_iff]
+  intro w hw; simpa using h w hw
+
+theorem getElem?_append_singleton_some {α : Type} {l : List α} {a t : α} {j : Nat} :
+    (l ++ [a])[j]? = some t ↔ l[j]? = some t ∨ (j = l.length ∧ t = a) := by
+  rw [List.getElem?_append]
+  split
+  · rename_i hlt; simp; omega
+  · rename_i hge
+    have : l[j]? = none := List.getElem?_eq_none (by omega)
+    rw [this]
+    by_cases hj : j = l.length
+    · subst hj; simp [eq_comm]
+    · have : j - l.length ≠ 0 := by omega
+      cases hk : j - l.length with
+      | zero => omega
+      | succ k => simp [hj]
+
+theorem ZInv.push {z : Zmq} {t : Sender} (h : ZInv z) (hpc : t.pc = .idle ∨ t.pc = .wantLock)
+    (ht : t.infl ++ t.todo = t.orig) : ZInv { z with senders := z.senders ++ [t] } := by
+  obtain ⟨hfc, hholder, hsock, hwsock, hwlt, ⟨s0, hs0, hq0⟩, hd⟩ := h
+  constructor <;> dsimp only
+  · exact hfc
+  · intro j u hj hu
+    rw [getElem?_append_singleton_some] at hj
+    grind
+  · intro j u hj hu
+    rw [getElem?_append_singleton_some] at hj
+    grind
+  · exact hwsock
+  · intro w hw; have := hwlt w hw; simp; omega
+  · exact ⟨s0, by rw [getElem?_append_singleton_some]; exact Or.inl hs0, hq0⟩
+  · intro j u hj0 hj
+    rw [getElem?_append_singleton_some] at hj
+    rcases hj with hj | ⟨rfl, rfl⟩
+    · exact hd j u hj0 hj
+    · have : z.wr z.senders.length = [] :=
+        z.wr_eq_nil_of_forall _ (fun w hw => by have := hwlt w hw; omega)
+      show z.wr z.senders.length ++ u.infl ++ u.todo = u.orig
+      rw [this]; simpa using ht
+
+theorem ZInv.act {z z' : Zmq} {a : ZAct} (h : ZInv z) (hact : z.act a = some z') : ZInv z' := by
+  cases a with
+  | step i => exact h.step hact
+  | enqueue m =>
+    simp [Zmq.act] at hact; subst hact
+    obtain ⟨hfc, hholder, hsock, hwsock, hwlt, ⟨s0, hs0, hq0⟩, hd⟩ := h
+    refine ⟨hfc, hholder, hsock, hwsock, hwlt, ⟨s0, hs0, ?_⟩, hd⟩
+    show z.wr 0 ++ s0.infl ++ (z.queue ++ [m]) = z.queued ++ [m]
+    rw [← hq0]; simp
+  | spawn msgs =>
+    simp [Zmq.act] at hact; subst hact
+    exact h.push (by simp) (by simp [Sender.infl])
+  | ensure =>
+    simp [Zmq.act] at hact; subst hact
+    exact h.push (by simp) (by simp [Sender.infl])
+
+theorem ZInv.run {z : Zmq} (h : ZInv z) (acts : List ZAct) : ZInv (z.run acts) := by
+  induction acts generalizing z with
+  | nil => exact h
+  | cons a as ih =>
+    unfold Zmq.run
+    split
+    · exact ih (h.act ‹_›)
+    · exact ih h
+
+theorem ZInv.run_init (acts : List ZAct) : ZInv (Zmq.init.run acts) := ZInv.init.run acts
+
 end Tickit
